@@ -89,6 +89,9 @@ func (c16) Generate(r *sim.Rand, tier string) *sim.Scenario {
 			if r.Bool(0.3) {
 				sc.Steps = append(sc.Steps, sim.Step{C: 1, Op: "weights", Out: -1})
 			}
+		case len(pending) == 0 && r.Bool(0.15):
+			// second and later use of the SAME parameter object: reset it in place
+			sc.Steps = append(sc.Steps, sim.Step{C: 1, Op: "reset", N: r.Intn(2), B: r.Bool(0.85), Out: -1})
 		case r.Bool(0.08):
 			sc.Steps = append(sc.Steps, sim.Step{C: 0, Op: "bad", Tag: c16Bad[r.Intn(len(c16Bad))], N: r.Range(1, 3), Out: -1})
 		case len(pending) > 0 && r.Bool(0.5):
@@ -298,6 +301,23 @@ func (prop c16) Execute(sc *sim.Scenario) *sim.Outcome {
 				}
 			}
 			if !checkPointers(where, false) {
+				return fin()
+			}
+		case "reset":
+			k := st.N % 2
+			for _, f := range fwds {
+				if f != nil && !f.done && (f.w == cur[k] || f.b == cur[k]) {
+					// C08 proviso (b): a tracked, not yet back-propagated result still hangs on it
+					out.Discard = "proviso-b"
+					return out
+				}
+			}
+			(*ptr[k]).ResetGradContext(st.B)
+			p := cur[k]
+			p.tracked, p.spent, p.hasGrad = st.B, false, false
+			p.gs, p.gm, p.ga = nil, nil, nil
+			out.Faults["reset-in-place"]++
+			if !checkPointers(where, false) || !checkGrads(where) {
 				return fin()
 			}
 		case "forward":
